@@ -1,2 +1,105 @@
-(* C11 - placeholder while the proofs are being written *)
-From P9 Require Import Model.Serve.
+(* C11 - server shutdown is prompt, complete and crash-free at any moment.
+   Same model and notation as C06.v.  [fault s]: the conn has been closed (read error, write error, peer
+   close - all end in CloseWithError) or the serving context is done.  OReturn: the serve loop leaves
+   serve(); OStop: ServeConn calls handler.Stop.
+   PARTIAL clause: "within bounded time" is wall-clock.  Proved here: in every fault state the loop's own
+   transition to return is enabled whatever it is blocked in, afterwards every handler goroutine whose
+   Handle has returned can leave by itself, and then Stop is enabled - at most 1 + (number of handlers) + 1
+   own steps, each irreversible, none needing anybody else except the handlers' own return (the property's
+   premise).  That these enabled steps are taken promptly is Go's scheduler; the harness supports it by
+   detecting quiescence without return. *)
+From Coq Require Import List NArith Bool.
+From stdpp Require Import gmap.
+From P9 Require Import Model.Serve Proofs.ServeProofs Proofs.ServeProofs2 Proofs.ServeProofs3 Proofs.ServeProofs4 Proofs.ServeWitness.
+Import ListNotations.
+Open Scope N_scope.
+
+(* 1a. no stuck state: in EVERY state with a fault in which the loop has not returned - idle, blocked
+       sending a duplicate-tag / flush reply, or blocked handing over a completed response - its own
+       transition "return" is enabled *)
+Theorem C11_no_stuck_partial : forall s, fault s = true -> pc s <> PReturned ->
+  exists s' o, step R s EReturn = Some (s', o) /\ pc s' = PReturned /\ In OReturn o.
+Proof. exact no_stuck_return. Qed.
+Print Assumptions C11_no_stuck_partial.
+
+(* 1b. after the return, every handler goroutine whose Handle has returned can leave on its own *)
+Theorem C11_no_stuck_handler : forall evs s tr, run R init evs = Some (s, tr) ->
+  forall rid h r, pc s = PReturned -> hs s !! rid = Some h -> h_st h = HFin r ->
+  exists s', step R s (EGiveUp rid) = Some (s', []).
+Proof. exact ev_no_stuck_handler. Qed.
+Print Assumptions C11_no_stuck_handler.
+
+(* 1c. and when they have all left, Stop is enabled *)
+Theorem C11_no_stuck_stop : forall s, pc s = PReturned -> stops s = 0 -> all_gone s = true ->
+  exists s', step R s EStop = Some (s', [OStop]) /\ stops s' = 1.
+Proof. exact no_stuck_stop. Qed.
+Print Assumptions C11_no_stuck_stop.
+
+(* 1d. progress is irreversible: returned stays returned, a goroutine that left stays gone *)
+Theorem C11_returned_stable : forall s e s' o, step R s e = Some (s', o) -> pc s = PReturned -> pc s' = PReturned.
+Proof. exact returned_stable. Qed.
+Print Assumptions C11_returned_stable.
+
+Theorem C11_gone_stable : forall evs s tr, run R init evs = Some (s, tr) ->
+  forall e s' o rid h, step R s e = Some (s', o) -> hs s !! rid = Some h -> h_st h = HGone ->
+  exists h', hs s' !! rid = Some h' /\ h_st h' = HGone.
+Proof. exact ev_gone_stable. Qed.
+Print Assumptions C11_gone_stable.
+
+(* 2. cancel-all: once the loop has returned, every handler still in flight has a cancelled context *)
+Theorem C11_cancel_all : forall evs s tr, run R init evs = Some (s, tr) -> In OReturn tr ->
+  forall rid h, hs s !! rid = Some h -> h_st h <> HGone -> In (OCancel rid) tr.
+Proof. exact ev_cancel_all. Qed.
+Print Assumptions C11_cancel_all.
+
+(* 3. Stop at most once (exactly once when 1c fires), only after the return, only when no handler is in flight *)
+Theorem C11_stop_once : forall evs s tr, run R init evs = Some (s, tr) ->
+  (stop_count tr <= 1)%nat /\
+  (In OStop tr -> In OReturn tr /\ forall rid h, hs s !! rid = Some h -> h_st h = HGone).
+Proof. exact ev_stop_once. Qed.
+Print Assumptions C11_stop_once.
+
+Theorem C11_stop_after_return : forall evs s tr, run R init evs = Some (s, tr) ->
+  forall e s' o, step R s e = Some (s', o) -> In OStop o -> In OReturn tr /\ ~ In OStop tr /\ all_gone s = true.
+Proof. exact ev_stop_after_return. Qed.
+Print Assumptions C11_stop_after_return.
+
+(* 4. the serve-side half of "nothing bound after stop": after Stop, for EVERY later event list, no
+      handler is dispatched and none returns - no session operation runs concurrently with or after
+      Stop, so what Stop released stays released.  (That session.Stop clunks every bound fid is the
+      session model's theorem; the harness checks the composition on the real SFileSys session.) *)
+Theorem C11_quiet_after_stop : forall evs s tr, run R init evs = Some (s, tr) -> stops s = 1 ->
+  forall later s' tr', run R s later = Some (s', tr') ->
+  forall x, In x tr' -> (forall rid m, x <> ODispatch rid m) /\ (forall rid r, x <> OFin rid r) /\ x <> OStop.
+Proof. exact ev_quiet_after_stop. Qed.
+Print Assumptions C11_quiet_after_stop.
+
+(* non-vacuity: a fault state with a handler in flight; the write-failure state in which the repaired
+   loop can return; a complete shutdown with Stop after the handler left *)
+Example C11_example_fault : exists s tr, run R init run_fault = Some (s, tr) /\ fault s = true /\ pc s <> PReturned /\
+  exists h, hs s !! 0 = Some h /\ h_st h = HRun.
+Proof. exact ex_run_fault. Qed.
+Print Assumptions C11_example_fault.
+
+Example C11_example_wfail : exists s tr, run R init run_wfail = Some (s, tr) /\
+  closed s = true /\ pc s <> PReturned /\ exists s' o, step R s EReturn = Some (s', o).
+Proof. exact repaired_not_stuck. Qed.
+Print Assumptions C11_example_wfail.
+
+Example C11_example_shutdown : run R init run_stop_early = None /\
+  exists s tr, run R init [ESend 0 1 (KReq m1); EReaderGet; EArrive; ECtxCancel; EReturn; EFinish 0 resA; EGiveUp 0; EStop] = Some (s, tr)
+    /\ stops s = 1 /\ In OReturn tr /\ In (OCancel 0) tr.
+Proof. exact repaired_stop_waits. Qed.
+Print Assumptions C11_example_shutdown.
+
+(* the code as found refuted 1a (D6: blocked for ever in `responses <- resp` after the writer died) and
+   4 (D13: Stop while a handler is in flight, which returns afterwards) *)
+Example C11_legacy_stuck : exists s tr, run legacy init run_wfail = Some (s, tr) /\
+  closed s = true /\ pc s <> PReturned /\ quiescent legacy s = true /\ all_gone s = true /\ step legacy s EReturn = None.
+Proof. exact legacy_stuck. Qed.
+Print Assumptions C11_legacy_stuck.
+
+Example C11_legacy_stop_early : exists s tr, run legacy init run_stop_early = Some (s, tr) /\
+  exists a b, tr = a ++ OStop :: b /\ In (OFin 0 resA) b.
+Proof. exact legacy_stop_early. Qed.
+Print Assumptions C11_legacy_stop_early.
